@@ -11,10 +11,10 @@ import ast
 from ..effects import FS_MUTATING, is_under, same_path
 from ..model import src
 from ..report import Report, key_of
-from ..terms import pretty
+from ..terms import dag_nodes, has_opaque, pretty
 from ..types import Ctx
 from .c05 import classify, persistent_data_classes
-from .common import TRUSTED_BASE, effects_of, where
+from .common import TRUSTED_BASE, effects_of, inl, where
 
 WRITERS = {'numpy.save': 'npy', 'pickle.dump': 'pickle', 'yaml.dump': 'yaml', 'json.dump': 'stdjson'}
 READERS = {'numpy.load': 'npy', 'pickle.load': 'pickle', 'pandas.read_pickle': 'pdpickle', 'yaml.load': 'yaml', 'json.load': 'stdjson'}
@@ -127,7 +127,11 @@ def run(A, R: Report, thorough: bool):
     encw = [kw.value.value for n in A.typer.own_nodes(wj) if isinstance(n, ast.Call) for kw in n.keywords if kw.arg == 'encoding' and isinstance(kw.value, ast.Constant)]
     encr = [kw.value.value for n in A.typer.own_nodes(ij) if isinstance(n, ast.Call) for kw in n.keywords if kw.arg == 'encoding' and isinstance(kw.value, ast.Constant)]
     same_mod = {x.rsplit('.', 1)[0] for x in wt} == {x.rsplit('.', 1)[0] for x in rt} and len(wt) == 1 and len(rt) == 1
-    newline = any(isinstance(n, ast.BinOp) and isinstance(n.op, ast.Add) and isinstance(n.right, ast.Constant) and n.right.value == '\n' for n in A.typer.own_nodes(wj))
+    writes = [n.args[0] for n in A.typer.own_nodes(wj) if isinstance(n, ast.Call) and isinstance(n.func, ast.Attribute) and n.func.attr == 'write' and n.args]
+    wat = A.sym.terms_at(wj, None, writes) if writes else {}
+    wterms = [t for n in writes for t in wat.get(id(n), [])]
+    # every written record is <json text> followed by exactly one line break
+    newline = bool(wterms) and all(t[0] == 'cat' and t[1][-1] == ('lit', '\n') and len(t[1]) == 2 and 'dumps' in pretty(t[1][0]) for t in wterms)
     R.check(same_mod and encw == encr and newline, 'R06.1', 'write_jsons / iter_json_file', key_of('jsonl', sorted(wt), sorted(rt), encw, encr, newline),
             'same json module, same encoding, one item per line', f'json-lines writer {sorted(wt)} enc {encw} newline={newline} vs reader {sorted(rt)} enc {encr}', where=where(wj))
 
@@ -196,16 +200,40 @@ def run(A, R: Report, thorough: bool):
     R.rule('R06.4', 'items named by enumerate index are read back in numeric order; generated sequences are materialised as lists on both sides', floor=2)
     ln = A.cls('ListOfNumpyData')
     fs, fl = ln.lookup('save'), ln.lookup('load')
-    by_index = any(isinstance(n, ast.For) and isinstance(n.iter, ast.Call) and src(n.iter.func) == 'enumerate' for n in A.typer.own_nodes(fs))
-    padded = any(isinstance(n, ast.FormattedValue) and n.format_spec is not None for n in A.typer.own_nodes(fs))
-    sorts = [n for n in A.typer.own_nodes(fl) if isinstance(n, ast.Call) and src(n.func) == 'sorted']
-    numeric = any(any(kw.arg == 'key' and 'int(' in src(kw.value) for kw in s.keywords) for s in sorts)
-    unordered_glob = any(isinstance(n, ast.For) and 'glob' in src(n.iter) and not src(n.iter).startswith('sorted(') for n in A.typer.own_nodes(fl))
-    if by_index:
+    # writer: np.save(<dir>/<index>.npy) inside a loop over enumerate(...)
+    saves = [n for n in inl(A, fs) if isinstance(n, ast.Call) and src(n.func).split('.')[-1] == 'save' and n.args and not (isinstance(n.func, ast.Attribute) and src(n.func.value) in ('self', 'super()'))]
+    enum_loops = [n for n in inl(A, fs) if isinstance(n, ast.For) and isinstance(n.iter, ast.Call) and src(n.iter.func) == 'enumerate']
+    by_index = bool(enum_loops) and any(any(x is sv_ for x in ast.walk(lp)) for lp in enum_loops for sv_ in saves)
+    padded = any(isinstance(n, ast.FormattedValue) and n.format_spec is not None for n in inl(A, fs))
+    lt = A.sym.func_term(fl, ('inst', ln))
+    sorts = [x for x in dag_nodes(lt) if x[0] == 'sorted']
+    globs = [x for x in dag_nodes(lt) if x[0] == 'method' and x[2] in ('glob', 'iterdir', 'rglob')] + [x for x in dag_nodes(lt) if x[0] == 'call' and x[1].split('.')[-1] in ('listdir', 'scandir', 'glob')]
+
+    def numeric_key(k):
+        """the sort key is int(<something derived from the file name>)"""
+        body = var = None
+        if k[0] == 'lam' and len(k[1]) == 1:
+            var, body = k[1][0], k[2]
+        elif k[0] in ('attr', 'global') and (ln.lookup(k[-1]) is not None or A.prog.find_func(k[-1]) is not None):
+            kf = ln.lookup(k[-1]) or A.prog.find_func(k[-1])
+            recv = ('inst', ln) if (kf.cls is not None and not kf.is_static) else None
+            ps = [p_ for p_ in kf.params if not (recv and p_ == kf.params[0])]
+            if len(ps) == 1:
+                var, body = ('p', ps[0]), A.sym.func_term(kf, recv)
+        if body is None:
+            return None
+        return body[0] == 'call' and body[1] == 'int' and any(x[0] == 'attr' and x[1] == var and x[2] in ('name', 'stem') for x in dag_nodes(body))
+
+    verdicts = [numeric_key(s_[2]) if s_[2] != ('lit', None) else False for s_ in sorts]
+    numeric = bool(sorts) and all(v is True for v in verdicts)
+    unordered_glob = bool(globs) and not all(any(g in dag_nodes(s_[1]) for s_ in sorts) for g in globs)
+    if by_index and (has_opaque(lt) or any(v is None for v in verdicts)) and not numeric:
+        R.undecided('R06.4', 'ListOfNumpyData: save/load order', 'reader ordering could not be evaluated symbolically', where=where(fl))
+    elif by_index:
         # zero padding only postpones the problem (index 100 with width 2): the reader must order numerically
         ok = numeric and not unordered_glob
         R.check(ok, 'R06.4', 'ListOfNumpyData: save/load order', key_of('order', numeric, padded, bool(sorts), unordered_glob), 'numeric sort of index-named files',
-                'files are named by unpadded index but not read back in numeric order (10.npy sorts before 2.npy, or directory order is arbitrary)', where=where(fl))
+                'files are named by unpadded index but not read back in numeric order (10.npy sorts before 2.npy, or directory order is arbitrary)', witness=[pretty(lt)[:300]], where=where(fl))
     else:
         R.undecided('R06.4', 'ListOfNumpyData: save/load order', 'writer naming idiom not recognised', where=where(fs))
     gd = A.cls('GeneratedData')
